@@ -18,6 +18,7 @@ import (
 func init() { register("C15", checkC15) }
 
 type mSpec struct {
+	Lenient bool      `json:"lenient,omitempty"` // ErrOnMissingPath(false)
 	Kind   string     `json:"kind"` // any | type | custom
 	Path   vkit.JPath `json:"-"`
 	PathS  string     `json:"path"`
@@ -75,9 +76,9 @@ func typeName(n *vkit.JNode, yaml bool) (string, bool) {
 func buildJSONMatcher(s mSpec, target *vkit.JNode) (match.JSONMatcher, any, bool) {
 	switch s.Kind {
 	case "any":
-		return match.Any(s.PathS).Placeholder(s.PH), s.PH, true
+		return match.Any(s.PathS).Placeholder(s.PH).ErrOnMissingPath(!s.Lenient), s.PH, true
 	case "custom":
-		return match.Custom(s.PathS, func(val any) (any, error) { return s.PH, nil }), s.PH, true
+		return match.Custom(s.PathS, func(val any) (any, error) { return s.PH, nil }).ErrOnMissingPath(!s.Lenient), s.PH, true
 	case "type":
 		tn, ok := typeName(target, false)
 		if !ok {
@@ -86,15 +87,15 @@ func buildJSONMatcher(s mSpec, target *vkit.JNode) (match.JSONMatcher, any, bool
 		ph := "<Type:" + tn + ">"
 		switch target.Kind {
 		case "str":
-			return match.Type[string](s.PathS), ph, true
+			return match.Type[string](s.PathS).ErrOnMissingPath(!s.Lenient), ph, true
 		case "num":
-			return match.Type[float64](s.PathS), ph, true
+			return match.Type[float64](s.PathS).ErrOnMissingPath(!s.Lenient), ph, true
 		case "bool":
-			return match.Type[bool](s.PathS), ph, true
+			return match.Type[bool](s.PathS).ErrOnMissingPath(!s.Lenient), ph, true
 		case "obj":
-			return match.Type[map[string]any](s.PathS), ph, true
+			return match.Type[map[string]any](s.PathS).ErrOnMissingPath(!s.Lenient), ph, true
 		case "arr":
-			return match.Type[[]any](s.PathS), ph, true
+			return match.Type[[]any](s.PathS).ErrOnMissingPath(!s.Lenient), ph, true
 		}
 	}
 	return nil, nil, false
@@ -103,9 +104,9 @@ func buildJSONMatcher(s mSpec, target *vkit.JNode) (match.JSONMatcher, any, bool
 func buildYAMLMatcher(s mSpec, target *vkit.JNode) (match.YAMLMatcher, any, bool) {
 	switch s.Kind {
 	case "any":
-		return match.Any(s.PathS).Placeholder(s.PH), s.PH, true
+		return match.Any(s.PathS).Placeholder(s.PH).ErrOnMissingPath(!s.Lenient), s.PH, true
 	case "custom":
-		return match.Custom(s.PathS, func(val any) (any, error) { return s.PH, nil }), s.PH, true
+		return match.Custom(s.PathS, func(val any) (any, error) { return s.PH, nil }).ErrOnMissingPath(!s.Lenient), s.PH, true
 	case "type":
 		tn, ok := typeName(target, true)
 		if !ok {
@@ -155,7 +156,7 @@ func isDigits(s string) bool {
 func checkC15(c *vkit.Ctx) {
 	c.P.Rule = "four sub-workloads on generated documents: (A) one JSON matcher (Any with placeholders of every JSON kind, shorter/longer than the replaced value; Type of the right type; Custom) applied directly to an existing path (members incl. keys needing escapes, array elements, nested) - output must be valid JSON and decode, member order included, to set(decode(input), path, placeholder); (B) 1-3 matchers through snaps.MatchJSON/MatchStandaloneJSON with a []byte input carved out of a larger buffer - stored text must equal the left-to-right tree model and the caller's bytes and the guard regions must be unchanged; (C) one YAML matcher applied directly, judged against goccy's ordered decode; (D) snaps.MatchYAML with []byte input and the same canary; non-trivial = placeholder raw length differs from the replaced value, or the path needs escapes, or >= 2 matchers; distinct by hash(document, matchers)"
 	c.P.Assumptions = []string{"encoding/json (ordered token walk) and goccy's ordered-map decoder are the tree oracles", "a matcher that reports an error on an existing path is allowed by the statement; such cases are counted, not judged"}
-	n := c.N(12000, 500000)
+	n := c.N(100000, 3000000)
 	for i := 0; i < n; i++ {
 		if !c.Mine(i) {
 			continue
@@ -189,7 +190,63 @@ func pickPath(r *rand.Rand, d *vkit.JNode, ok func(vkit.JPath) bool) (vkit.JPath
 
 func rawLen(n *vkit.JNode) int { return len(n.Render(nil, false)) }
 
+// c15JSONMultiPath: one matcher with 2-4 paths (Any / Type accept several): every
+// listed path must be replaced, exactly as the same paths given to separate matchers.
+func c15JSONMultiPath(c *vkit.Ctx, r *rand.Rand, i int) {
+	d := vkit.JSONObjectDoc(r, 4, 2, vkit.Classes{})
+	var used []vkit.JPath
+	var paths []string
+	ph, phk := drawPlaceholder(r)
+	exp := d.Clone()
+	wantTree, _ := vkit.FromGo(ph)
+	for k := 0; k < 2+r.IntN(3); k++ {
+		p, ok := pickPath(r, d, func(p vkit.JPath) bool {
+			if !gjsonAddressable(p) {
+				return false
+			}
+			for _, q := range used {
+				if prefixRelated(p, q) {
+					return false
+				}
+			}
+			return true
+		})
+		if !ok {
+			break
+		}
+		used = append(used, p)
+		paths = append(paths, p.GJSON())
+		exp.Set(p, wantTree.Clone())
+	}
+	if len(paths) < 2 {
+		return
+	}
+	text := d.Render(r, false)
+	in := map[string]any{"sub": "json-direct-multi-path", "document": vkit.Clip(text, 3000), "paths": paths, "placeholder": ph}
+	out, errs := match.Any(paths...).Placeholder(ph).JSON([]byte(text))
+	c.Count("json_multipath_applications", 1)
+	if len(errs) > 0 {
+		c.Count("json_direct_matcher_reported_error", 1)
+		return
+	}
+	got, err := vkit.ParseJSON(string(out))
+	if err != nil {
+		c.Violate("matcher-output-invalid-json", "", err.Error(), in)
+		return
+	}
+	if diff := exp.Equal(got, true); diff != "" {
+		c.Violate("multi-path-matcher-skipped-a-path", "", fmt.Sprintf("Any(%v) placeholder %s: differs from the model at %s; output %s", paths, phk, diff, vkit.Q(string(out))), in)
+		return
+	}
+	c.Count("placeholder:"+phk, 1)
+	c.Case(vkit.Hash("jm", text, fmt.Sprint(paths), phk), true)
+}
+
 func c15JSONDirect(c *vkit.Ctx, r *rand.Rand, i int) {
+	if i%12 == 0 {
+		c15JSONMultiPath(c, r, i)
+		return
+	}
 	cl := vkit.Classes{}
 	d := vkit.JSONObjectDoc(r, 4, 1, cl)
 	p, ok := pickPath(r, d, gjsonAddressable)
